@@ -23,7 +23,7 @@
    The remaining side conditions are necessary: `initial` naming a history pseudo-state (F35), a history default target that
    is itself a history pseudo-state (F36) or lies outside the history state's parent (F37) each make the code leave an
    illegal configuration - kernel-checked witnesses below, recorded findings. *)
-From XSM Require Import Model.Macro Model.Snap Proofs.LegalP Proofs.ExecP Proofs.FaultP Proofs.StepP Proofs.DescentP Proofs.EffectP Proofs.PreserveP Proofs.InvariantP Proofs.SelectP Proofs.HistoryP Proofs.InvariantHP Proofs.SortP Proofs.IdP Gen.GenTree.
+From XSM Require Import Model.Macro Model.Snap Proofs.LegalP Proofs.ExecP Proofs.FaultP Proofs.StepP Proofs.DescentP Proofs.EffectP Proofs.PreserveP Proofs.InvariantP Proofs.SelectP Proofs.HistoryP Proofs.InvariantHP Proofs.SortP Proofs.IdP Proofs.GeomBridge Model.TreeLib Gen.GenTree Gen.GenGeom.
 From Coq Require Import Permutation.
 
 Theorem C01_legal_is_the_definition : forall m C, legal m C = true <-> Legal m C.
@@ -178,6 +178,39 @@ Theorem C01_ancestry_oracle_is_the_source : forall m, ancestry_side_ok m = true 
 Proof. exact ancestry_oracle_of_source. Qed.
 Print Assumptions C01_ancestry_oracle_is_the_source.
 
+(* TIE T for the GEOMETRY of a transition: the three functions by which the engine decides what a transition exits and
+   enters - _find_transition_domain, _compute_states_to_exit (with _resolve_history_target for history targets) and
+   _get_path_to_state - are RE-TRANSLATED from the current source on every run (Gen/GenGeom.v, harness/py2coq_tree.py) and
+   proved equal to the model functions `find_domain`, `exit_set_h` / `ext_exit_set`, `path_to` / `ext_path` that
+   C01_transition_effect, C01_transition_preserves_legality and the run theorems below are stated over. *)
+Theorem C01_domain_is_the_source : forall m src tgt, wf m = true -> src < size m -> tgt < size m ->
+  GenGeom.find_transition_domain m src tgt = if Nat.eqb tgt 0 then None else Some (find_domain m src tgt).
+Proof. exact find_domain_bridge. Qed.
+Print Assumptions C01_domain_is_the_source.
+
+Theorem C01_exit_set_is_the_source : forall m, ancestry_side_ok m = true -> forall C H d tgt,
+  (forall s, In s C -> s < size m) -> d < size m ->
+  GenGeom.compute_states_to_exit m C H (Some d) tgt = exit_set_h m C H d tgt.
+Proof. exact exit_set_bridge. Qed.
+Print Assumptions C01_exit_set_is_the_source.
+
+(* domain None - "the whole machine", which the source returns exactly for a transition to the root - exits everything *)
+Theorem C01_exit_set_of_whole_machine : forall m C H tgt, GenGeom.compute_states_to_exit m C H None tgt = C.
+Proof. exact exit_set_none. Qed.
+Print Assumptions C01_exit_set_of_whole_machine.
+
+Theorem C01_entry_path_is_the_source : forall m t d, GenGeom.get_path_to_state m t (Some d) = path_to m t d.
+Proof. exact get_path_bridge. Qed.
+Print Assumptions C01_entry_path_is_the_source.
+
+Theorem C01_entry_path_of_whole_machine : forall m d, wf m = true -> GenGeom.get_path_to_state m 0 None = ext_path m 0 d.
+Proof. exact get_path_root. Qed.
+Print Assumptions C01_entry_path_of_whole_machine.
+
+Theorem C01_ancestors_are_the_source : forall m s, wf m = true -> s < size m -> GenGeom.get_ancestors m s = anc_self m s.
+Proof. exact get_ancestors_bridge. Qed.
+Print Assumptions C01_ancestors_are_the_source.
+
 (* steps that keep the configuration *)
 Theorem C01_unhandled_keeps : forall eng pr m ev s,
   select m (s_cfg s) (s_ctx s) ev = Some [] -> process_event eng pr m ev s = (s, None).
@@ -255,6 +288,16 @@ Proof. vm_compute. repeat split; reflexivity. Qed.
 Example C01_history_theorem_applies :
   wf f34 = true /\ twf f34 = true /\ good_initials f34 = true /\ safe_targets_hb f34 = true /\ safe_targetsb f34 = false /\
   snd (sync_start f34 (st_init [])) = None /\ ancestry_side_ok f34 = true.
+Proof. vm_compute. repeat split; reflexivity. Qed.
+(* ... and the functions translated from the source compute on it: BACK (y -> the deep-history child h of the parallel root) *)
+Example C01_translated_geometry_computes :
+  let s0 := fst (sync_start f34 (st_init [])) in
+  let s1 := fst (sync_send f34 (Build_event "GO" EPlain 0) s0) in
+  GenGeom.find_transition_domain f34 4 1 = Some 0 /\
+  GenGeom.compute_states_to_exit f34 (s_cfg s1) (s_hist s1) (Some 0) 1 = [2; 5; 6; 4] /\
+  GenGeom.resolve_history_target f34 (s_hist s1) 1 = [6; 3] /\
+  GenGeom.get_path_to_state f34 3 (Some 0) = [2; 3] /\ GenGeom.get_ancestors f34 6 = [6; 5; 0] /\
+  GenGeom.find_transition_domain f34 3 4 = Some 2 /\ GenGeom.find_transition_domain f34 3 0 = None.
 Proof. vm_compute. repeat split; reflexivity. Qed.
 
 (* THE SIDE CONDITIONS ARE NECESSARY - three more kernel-checked witnesses on which the code at HEAD (and the model)
